@@ -128,6 +128,12 @@ def run_scenario(scenario, seed, monitors=(), trace=False, settle=None, worker_h
                 if node.dead:
                     node.restart()
                     sim.count("restart")
+            elif fl["kind"] == "clock-jump":
+                # the wall clock of the host is stepped (NTP correction, operator): armed timers keep their delays,
+                # whatever is computed from time.time() afterwards sees the new time
+                sim.wall_offset += fl["delta"]
+                sim.count("clock-jump")
+                sim.log("FAULT", "clock-jump", fl["delta"])
         sim.call_at(t0 + fl["at"], fire, None, kind="fault", label=fl["kind"])
     if before_run is not None:
         before_run(res)
